@@ -1,6 +1,7 @@
 package main
 
 import (
+	"sort"
 	"encoding/json"
 	"flag"
 	"fmt"
@@ -37,6 +38,10 @@ type InstResult struct {
 	Observe   []string
 	NDNames   []string
 	NDSorts   []string
+	C18Reads  []string          // global state read outside any mutex
+	C18Writes map[string]string // global state written -> lock context
+	C18Notes  map[string]int
+	C18Events int
 }
 
 // runInstance explores all paths of one instance.
@@ -87,6 +92,20 @@ func runInstance(ld *Loaded, sol *Solver, inst Instance, opt runOpts) (res InstR
 		h.paths++
 		ex.resetPath(prefix)
 		runPath(ex, entry)
+		if lg := ex.evlog; lg != nil {
+			if h.c18reads == nil {
+				h.c18reads, h.c18writes = map[string]bool{}, map[string]string{}
+			}
+			for l := range lg.reads {
+				h.c18reads[l] = true
+			}
+			for l, ctx := range lg.writes {
+				if old, ok := h.c18writes[l]; !ok || (old != "" && ctx == "") {
+					h.c18writes[l] = ctx
+				}
+			}
+			res.C18Events += lg.nEvents
+		}
 		work = append(work, ex.path.forks...)
 		for i, n := range ex.path.ndNames {
 			if !ndSeen[n] {
@@ -108,6 +127,12 @@ func runInstance(ld *Loaded, sol *Solver, inst Instance, opt runOpts) (res InstR
 	res.Intr = ex.intrHit
 	res.UnknownBr = h.unknownBr
 	res.Observe = h.observeLog
+	for l := range h.c18reads {
+		res.C18Reads = append(res.C18Reads, l)
+	}
+	sort.Strings(res.C18Reads)
+	res.C18Writes = h.c18writes
+	res.C18Notes = h.c18notes
 	for f := range ex.funcsSeen {
 		res.Funcs = append(res.Funcs, f.String())
 	}
@@ -241,6 +266,12 @@ func cmdOne(args []string) {
 	}
 	for k := range res.Reached {
 		fmt.Printf("reached %s\n", k)
+	}
+	for k, n := range res.C18Notes {
+		fmt.Printf("C18 note x%d: %s\n", n, k)
+	}
+	if len(res.C18Reads) > 0 || len(res.C18Writes) > 0 {
+		fmt.Printf("C18 events=%d unlocked-global-reads=%v global-writes=%v\n", res.C18Events, res.C18Reads, res.C18Writes)
 	}
 	cnt := map[string]int{}
 	ms := map[string]float64{}
